@@ -645,6 +645,96 @@ def c04_part5(tier, seed):
     return (1 if real else 0), (summary, real)
 
 
+# ------------------------------------------------------------------------------------------ layout probe (C07)
+# Conversions of a value stored at an address that is 8 modulo 16 (behind a u64 in a 16-aligned record) against the same
+# value at a 16-aligned address, each family in its own PROCESS: an implementation that reads limbs through a wider,
+# more strictly aligned type does not return a wrong value - it kills the process (misaligned dereference / SIGSEGV),
+# which inside the in-process engine would be a machinery failure instead of a verdict.
+LAYOUT_TYPES = [(64, 1), (65, 2), (128, 2), (129, 3), (192, 3), (256, 4), (320, 5)]
+
+
+def layout_program(b, l):
+    vals = ["T::from(5u8)", "T::MAX", "T::MAX >> 1", "T::ONE << (B.min(64) - 1)", "T::MAX >> (B / 2)"]
+    convs = [
+        ("u128::try_from", "format!(\"{:?}\", u128::try_from(x).ok())"), ("i128::try_from", "format!(\"{:?}\", i128::try_from(x).ok())"),
+        ("u64::try_from", "format!(\"{:?}\", u64::try_from(x).ok())"), ("i64::try_from", "format!(\"{:?}\", i64::try_from(x).ok())"),
+        ("wrapping_to u128", "format!(\"{:?}\", x.wrapping_to::<u128>())"), ("wrapping_to i128", "format!(\"{:?}\", x.wrapping_to::<i128>())"),
+        ("saturating_to u128", "format!(\"{:?}\", x.saturating_to::<u128>())"), ("saturating_to i128", "format!(\"{:?}\", x.saturating_to::<i128>())"),
+        ("wrapping_to u32", "format!(\"{:?}\", x.wrapping_to::<u32>())"), ("f64::from", "format!(\"{:?}\", f64::from(x))"), ("f32::from", "format!(\"{:?}\", f32::from(x))"),
+        ("Uint -> Uint<256>", "format!(\"{:?}\", x.wrapping_to::<Uint<256, 4>>().as_limbs())"), ("bool::try_from", "format!(\"{:?}\", bool::try_from(x).ok())"),
+    ]
+    lines = ["use ruint::Uint;", f"const B: usize = {b};", f"type T = Uint<{b}, {l}>;", "#[repr(C, align(16))] struct Off<V>(u64, V);", "#[repr(C, align(16))] struct Al<V>(V);", "fn main() {",
+             f"  let vals: [T; {len(vals)}] = [{', '.join(vals)}];", "  for (k, v) in vals.iter().enumerate() {",
+             "    let w = std::hint::black_box(Off(0x5a5a_u64, *v)); let a = std::hint::black_box(Al(*v));",
+             "    assert_eq!((&w.1 as *const T as usize) % 16, 8); assert_eq!((&a.0 as *const T as usize) % 16, 0);"]
+    for name, e in convs:
+        lines.append(f"    {{ let x = &w.1; let p = {e}; let x = &a.0; let q = {e}; println!(\"{{}} {name}: {{}}\", k, if p == q {{ \"OK\".to_string() }} else {{ format!(\"MISMATCH {{}} vs {{}}\", p, q) }}); }}")
+    lines += ["  }", "}"]
+    return "\n".join(lines)
+
+
+def layout_check(args):
+    d, b, l, profile = args
+    src = os.path.join(d, f"layout_{profile}_{b}.rs")
+    prog = layout_program(b, l)
+    open(src, "w").write(prog)
+    rc, err = rustc(src, src[:-3], profile)
+    if rc != 0:
+        return (b, l, profile, "MACHINERY", err.strip()[:300], prog)
+    rc2, out, errout = run_bin(src[:-3])
+    bad = [x for x in out.splitlines() if "MISMATCH" in x]
+    if rc2 != 0:
+        last = (out.strip().splitlines() or ["(nothing printed)"])[-1]
+        return (b, l, profile, "CRASH", f"the process died (exit status {rc2}) after `{last}`: {errout.strip()[:200]}", prog)
+    if bad:
+        return (b, l, profile, "MISMATCH", bad[0][:200], prog)
+    return (b, l, profile, "ok", f"{len(out.splitlines())} conversions", prog)
+
+
+def c07_layout(tier, seed):
+    """returns 0 / 1 / 2; merges a summary into evidence/C07.json"""
+    t0 = time.time()
+    d = fresh_workdir("c07layout")
+    try:
+        artifacts("release")
+        artifacts("noassert")
+    except RuntimeError:
+        print("MACHINERY-ERROR: build failed (this is not a verdict about the property)")
+        return 2
+    jobs = [(d, b, l, prof) for prof in ("release", "noassert") for (b, l) in LAYOUT_TYPES]
+    with cf.ThreadPoolExecutor(os.cpu_count() or 8) as ex:
+        res = list(ex.map(layout_check, jobs))
+    shutil.rmtree(d, ignore_errors=True)
+    if any(r[3] == "MACHINERY" for r in res):
+        print(f"MACHINERY-ERROR: the layout probe does not compile: {[r[4] for r in res if r[3] == 'MACHINERY'][:1]} (not a verdict)")
+        return 2
+    real = 0
+    for r in res:
+        if r[3] == "ok":
+            continue
+        real += 1
+        if real <= 5:
+            path = write_replay("C07", f"layout {r[0]} {r[2]}", {"kind": "conversion depends on the address of the value", "bits": r[0], "profile": r[2], "observed": r[4], "program": r[5],
+                                                                  "expected": "every conversion of a value at an address that is 8 modulo 16 equals the conversion of the same value at a 16-aligned address; the process does not die"})
+            print(f"VIOLATION property=C07 replay={path}")
+            print(f"  [layout: Uint<{r[0]}, {r[1]}> at an address that is 8 modulo 16, library built {'without' if r[2] == 'noassert' else 'with'} debug assertions] {r[4]}")
+    summary = {"types": LAYOUT_TYPES, "library_builds": 2, "processes": len(jobs), "conversions_per_process": 65, "violations": real, "wall_s": round(time.time() - t0, 3)}
+    path = os.path.join(ROOT, "evidence", "C07.json")
+    try:
+        ev = json.load(open(path))
+        ev["coverage"]["layout_probe"] = summary
+        ev["coverage"]["states"] += len(jobs) * 5
+        ev["coverage"]["transitions"] += len(jobs) * 65
+        ev["coverage"]["traces_validated_against_impl"] += len(jobs) * 65
+        ev["violations"] = int(ev.get("violations", 0)) + real
+        json.dump(ev, open(path, "w"), indent=1)
+    except Exception as ex:  # noqa
+        print(f"MACHINERY-ERROR: cannot merge the layout probe into evidence/C07.json: {ex}")
+        return 2
+    print(f"C07/layout tier={tier} {len(LAYOUT_TYPES)} types x 2 library builds x 5 values x 13 conversions at both addresses modulo 16: violations={real} wall={time.time() - t0:.1f}s")
+    return 1 if real else 0
+
+
 def c04(tier, seed):
     rc, extra = c04_part4(tier, seed)
     if rc == 2:
